@@ -42,6 +42,18 @@ Fixpoint failing_cfg_from (i : nat) (mon : config -> list (directive * list obs)
   end.
 Definition failing_cfg := failing_cfg_from 0.
 
+(* monitors over the final quiet phase: the harness says where it starts in each trace *)
+Fixpoint failing_from_idx (i : nat) (mon : nat -> list (directive * list obs) -> list (Z * nat))
+         (l : list (nat * list (directive * list obs))) : list (nat * list (Z * nat)) :=
+  match l with
+  | [] => []
+  | (from, tr) :: l' => match mon from tr with
+                        | [] => failing_from_idx (S i) mon l'
+                        | vs => (i, vs) :: failing_from_idx (S i) mon l'
+                        end
+  end.
+Definition failing_drain := failing_from_idx 0.
+
 (* a trace is non-trivial when a conditional write lost (0 rows), a fault was injected, a crash happened,
    or a request was answered with a non-2xx status *)
 Definition lost_write (r : result) : bool :=
